@@ -20,9 +20,13 @@ func labSample(lc *LabCase) map[string]any {
 
 // record executes the recording run (no skips, no filter) and returns its analysis.
 func (l *Lab) record(c *vkit.Ctx, lc *LabCase) (*Analysis, bool) {
+	return l.recordWith(c, lc, l.P)
+}
+
+func (l *Lab) recordWith(c *vkit.Ctx, lc *LabCase, prog *Program) (*Analysis, bool) {
 	scn := *lc.Scenario
 	scn.CleanSort = false
-	res := l.P.RunChild(RunOpt{PkgDir: l.PkgDir, Scenario: &scn})
+	res := prog.RunChild(RunOpt{PkgDir: l.PkgDir, Scenario: &scn})
 	if !res.Complete {
 		c.Inconclusive("recording run did not complete: " + fmt.Sprint(res.Err) + " " + res.Stderr)
 		return nil, false
@@ -63,6 +67,7 @@ func checkC07(c *vkit.Ctx) {
 		return
 	}
 	lab := NewLab(p, "")
+	lab.withTrim(c)
 	n := c.N(1500, 100000)
 	for i := 0; i < n; i++ {
 		if !c.Mine(i) {
@@ -77,14 +82,18 @@ func checkC07(c *vkit.Ctx) {
 func runC07(c *vkit.Ctx, lab *Lab, r *rand.Rand, i int) {
 	lab.Wipe()
 	lc := lab.Gen(r, LabOpts{RunFilter: true, Counts: true, Stale: true, Shuffle: true, Hostile: true, Fuzz: true, Parallel: true})
-	rec, ok := lab.record(c, lc)
+	prog, trimmed := lab.prog(i)
+	if trimmed {
+		lc.Classes["trimpath-build"] = true
+	}
+	rec, ok := lab.recordWith(c, lc, prog)
 	if !ok {
 		c.Count("premise_record_failed", 1)
 		return
 	}
 	own := BuildOwned(rec)
 	sd := lab.Seed(r, own, LabOpts{Stale: true, Shuffle: true, Hostile: true, TornTail: true})
-	res := lab.P.RunChild(RunOpt{PkgDir: lab.PkgDir, Scenario: lc.Scenario, Run: lc.Run, Count: lc.Count, Update: lc.Update})
+	res := prog.RunChild(RunOpt{PkgDir: lab.PkgDir, Scenario: lc.Scenario, Run: lc.Run, Count: lc.Count, Update: lc.Update})
 	in := labSample(lc)
 	if !res.Complete {
 		c.Violate("clean-did-not-complete", "", fmt.Sprintf("child died: %v %s", res.Err, res.Stderr), in)
@@ -157,7 +166,7 @@ func runC07(c *vkit.Ctx, lab *Lab, r *rand.Rand, i int) {
 		c.Count("entry_checks", 1)
 	}
 	// follow-up read-only process: everything addressed still replays
-	res3 := lab.P.RunChild(RunOpt{PkgDir: lab.PkgDir, Scenario: lc.Scenario, Run: lc.Run, Count: lc.Count, CI: true})
+	res3 := prog.RunChild(RunOpt{PkgDir: lab.PkgDir, Scenario: lc.Scenario, Run: lc.Run, Count: lc.Count, CI: true})
 	if res3.Complete {
 		a3 := Analyze(res3, lab.Src)
 		was := map[string]string{}
